@@ -103,6 +103,21 @@ def r_none(prog, tier):
                         why = 'no recognised default, but %s may supply one' % (
                             'a store to the field' if stores else ('the call `%s`' % unparse(opaque[0][1])[:40] if opaque
                                                                     else 'the condition %s' % (tests[0],)))
+                    if stores and not opaque:
+                        # positive evidence after all: a run reaches the use without passing any of these stores and without
+                        # passing a test that the field is not None
+                        notnone = frozenset(a_.id for a_ in cfg.nodes if a_.kind == 'assume' and norm_test(a_.ast, a_.pol) in (
+                            ('none', slot, False), ('truthy', slot, True)))
+                        whole = frozenset(m_.id for m_ in stores if not (isinstance(m_.ast, ast.Assign) and any(
+                            isinstance(t_, ast.Subscript) for t_ in m_.ast.targets)) )
+                        avoid = frozenset(m_.id for m_ in stores) | notnone
+                        if not whole and at in cfg.reach(cfg.entry, avoid=avoid) and all(
+                                data_key(prog, f, t_) is not None for m_ in stores if isinstance(m_.ast, ast.Assign)
+                                for t_ in m_.ast.targets if isinstance(t_, ast.Subscript)):
+                            skipped = [unparse(a_.ast)[:40] for m_ in stores for a_ in cfg.assumes_at(m_.id)][:2]
+                            verdict = False
+                            why = 'the default for `%s` is stored only under %s; a run on which that does not hold reaches this use ' \
+                                  'with the field still None' % (slot, skipped)
                 obs.append(Ob('R-NONE', f.fq, 'use of optional field `%s.data[%r]` happens after it was defaulted'
                               % (X, fld), verdict, why or
                               'the field may be None here (bracket trees have no lemma, TIGER trees may lack morph/'
@@ -265,6 +280,23 @@ def r_esc(prog, tier):
                                   (False if before else None), 'written after trees.replace_chars(...)' if after else
                                   'the label is written BEFORE trees.replace_chars(...) in the same branch: a tag or function '
                                   'containing a parenthesis goes out verbatim', construct='esc-brackets-label', line=m.lineno))
+        # ... also when the label is computed into a local first: what counts is where get_label is evaluated
+        for m in cfg.eval_nodes():
+            if m.kind != 'stmt' or m.id == r0.id or [x[0] for x in facts_at(cfg, m.id)] != same_branch:
+                continue
+            for sub in walk_own(m.ast):
+                if isinstance(sub, ast.Call) and unparse(sub.func) == '%s.write' % stream and len(sub.args) == 1 \
+                        and isinstance(sub.args[0], ast.Name) and cfg.dominates(r0.id, m.id):
+                    for (dn, dv) in name_defs(f, sub.args[0].id):
+                        if isinstance(dv, ast.AST) and any(isinstance(y, ast.Call) and prog.callee(y, f) == ('trees', 'get_label')
+                                                           for y in ast.walk(dv)):
+                            early = cfg.dominates(dn, r0.id) and dn != r0.id
+                            obs.append(Ob('R-ESC', f.fq, 'the label of a token is computed after its parentheses were mapped',
+                                          False if early else (True if cfg.dominates(r0.id, dn) else None),
+                                          '`%s = %s` (line %d) is evaluated before trees.replace_chars(...): the tag or function of a '
+                                          'token is written with its parentheses' % (sub.args[0].id, unparse(dv)[:40], cfg.nodes[dn].lineno)
+                                          if early else 'evaluated after the mapping', construct='esc-brackets-label-local',
+                                          line=cfg.nodes[dn].lineno))
     if found == 0:
         raise Unrecognised('write_brackets_subtree writes no token')
     return obs, {'xml_string_sinks': nsinks}
